@@ -12,7 +12,7 @@ WORK = run.WORK
 LIFE = {
     "C01": dict(models=["base_foreign", "restart"], tmodels=["t_restart3", "overlap"], fams=["other", "base", "amtless", "twohash"],
                 crashes=(0, 1), wf=0, rf=0, extra=["class", "twin_key"]),
-    "C02": dict(extra=["wait_timeout", "slow_decision", "write_fault", "late_replay", "k1_then_fail"], focus=["Overlap", "Live"], models=["restart", "faults"], tmodels=["t_restart3", "t_faults2", "overlap"], fams=["base", "overlap", "amtless", "replay"],
+    "C02": dict(extra=["wait_timeout", "slow_decision", "write_fault", "late_replay", "late_bad", "k1_then_fail"], focus=["Overlap", "Live"], models=["restart", "faults"], tmodels=["t_restart3", "t_faults2", "overlap"], fams=["base", "overlap", "amtless", "replay"],
                 crashes=(0, 1, 1), wf=1, rf=0, trf=1),
     "C03": dict(models=["base_conf", "base_amtless", "base_zero", "restart"], tmodels=["t_restart3", "base_tot"], fams=["base", "amtless", "overlap", "other"],
                 crashes=(0, 1), wf=0, rf=0, extra=["class"]),
@@ -23,8 +23,8 @@ LIFE = {
     "C06": dict(live=["live"], models=["base_conf", "faults"], tmodels=["base_exp", "base_tot", "t_faults2"], fams=["base", "amtless", "other", "overlap", "twohash"],
                 crashes=(0,), wf=1, rf=1, extra=["garbage", "class-raw", "e2e_burst", "slow_decision"]),
     "C07": dict(models=["base_conf", "base_exp", "base_tot", "base_amtless"], tmodels=["overlap"], fams=["base", "amtless"],
-                crashes=(0,), wf=0, rf=0, extra=["slow_decision"]),
-    "C08": dict(extra=["wait_timeout", "write_fault", "late_replay"], focus=["Overlap", "Live"], models=["overlap", "faults", "restart"], tmodels=["t_overlap2", "t_faults2"], fams=["overlap", "base", "amtless"],
+                crashes=(0,), wf=0, rf=0, extra=["slow_decision", "late_bad"]),
+    "C08": dict(extra=["wait_timeout", "write_fault", "late_replay", "late_bad"], focus=["Overlap", "Live"], models=["overlap", "faults", "restart"], tmodels=["t_overlap2", "t_faults2"], fams=["overlap", "base", "amtless"],
                 crashes=(0, 1), wf=1, rf=0),
     "C09": dict(models=["wedge", "faults"], tmodels=["t_faults2", "restart"], fams=["base", "overlap"], crashes=(0, 1, 1), wf=1, rf=0, probes=3,
                 extra=["write_fault"]),
@@ -259,6 +259,10 @@ def build_jobs(pid, tier, seed, workdir):
         dj = scen.late_replay_jobs(start_run=runno)
         jobs += dj; runno += len(dj)
         sched_stats["directed late-replay schedules"] = len(dj)
+    if "late_bad" in ex:
+        dj = scen.late_bad_jobs(start_run=runno)
+        jobs += dj; runno += len(dj)
+        sched_stats["directed fail-request-while-paying schedules"] = len(dj)
     if "many_parts" in ex:
         dj = scen.many_parts_jobs(start_run=runno)
         jobs += dj; runno += len(dj)
@@ -275,4 +279,7 @@ def build_jobs(pid, tier, seed, workdir):
         gj = scen.garbage_jobs(seed, 8000 if thorough else 1200, start_run=runno)
         jobs += gj; runno += len(gj)
         sched_stats["garbage input runs"] = len(gj)
+    only = os.environ.get("VF_ONLY")      # debugging aid: restrict a run to the jobs whose tag contains this text
+    if only:
+        jobs = [j for j in jobs if only in j.get("tag", "")]
     return jobs, sched_stats, mstats
